@@ -66,6 +66,9 @@ struct CaptureGroupIterator<'a> {
     basis: Box<dyn Iterator<Item = usize> + 'a>,
     group_nr: usize,
     position: usize,
+    // what the group held before this attempt at it
+    previous: (Option<usize>, Option<usize>),
+    previous_backref: (Option<usize>, Option<usize>),
 }
 
 impl<'a> CaptureGroupIterator<'a> {
@@ -75,11 +78,25 @@ impl<'a> CaptureGroupIterator<'a> {
         group_nr: usize,
         position: usize,
     ) -> Self {
+        let previous = (
+            matcher.get_paren_start(group_nr),
+            matcher.get_paren_end(group_nr),
+        );
+        let previous_backref = if (matcher.program.optimization_flags & OPT_HASBACKREFS) != 0 {
+            (
+                matcher.start_backref(group_nr),
+                matcher.end_backref(group_nr),
+            )
+        } else {
+            (None, None)
+        };
         Self {
             matcher,
             basis,
             group_nr,
             position,
+            previous,
+            previous_backref,
         }
     }
 }
@@ -88,7 +105,19 @@ impl Iterator for CaptureGroupIterator<'_> {
     type Item = usize;
 
     fn next(&mut self) -> Option<Self::Item> {
-        let next = self.basis.next()?;
+        let Some(next) = self.basis.next() else {
+            // the engine is backtracking out of this attempt at the group:
+            // the group holds again what it held before
+            self.matcher
+                .restore_paren(self.group_nr, self.previous.0, self.previous.1);
+            if (self.matcher.program.optimization_flags & OPT_HASBACKREFS) != 0 {
+                self.matcher
+                    .set_start_backref(self.group_nr, self.previous_backref.0);
+                self.matcher
+                    .set_end_backref(self.group_nr, self.previous_backref.1);
+            }
+            return None;
+        };
 
         // Increase valid paren count
         if self.group_nr >= self.matcher.paren_count() {
